@@ -1,4 +1,5 @@
 import PdfModel.Lemmas.EncEncode
+import PdfModel.Lemmas.EncCheck
 
 /-!
 # C05 — stream filters decode what standard encoders produce; broken data never panics
@@ -211,6 +212,23 @@ theorem unfilter_total (t : PredictorType) (bpp : Nat) (prev inp out : Bytes)
     (h1 : inp.length = out.length) (h2 : inp.length = prev.length) :
     ∃ o, unfilter t bpp prev inp out = .ok o ∧ o.length = out.length :=
   unfilter_ok t bpp prev inp out h1 h2
+
+/-! ## The domain certificates the driver hands to the harness are sound -/
+
+/-- the executable membership tests of `Spec/CodecsCheck.lean` (run by the driver on every conforming
+    encoding the harness generates) only accept texts that lie in the encoder relations, hence in the
+    domain of the three theorems above -/
+theorem certificates_sound (bs text : Bytes) :
+    (checkHex bs text = true → decodeHex text = .ok bs) ∧
+    (check85 bs text = true → decode85 text = .ok bs) ∧
+    (checkRL bs text = true → runLengthDecode text = .ok bs) :=
+  ⟨fun h => decodeHex_of_encodes (checkHex_sound h), fun h => decode85_of_encodes (check85_sound h),
+   fun h => runLength_of_encodes (checkRL_sound h)⟩
+
+example : checkHex [0x41, 0x40] [52, 49, 32, 52, 62] = true := by decide
+example : check85 [0, 0, 0, 0, 1] [122, 32, 33, 60, 126, 62] = true := by decide
+example : checkRL [7, 7, 7, 1, 2] [254, 7, 1, 1, 2, 128, 99] = true := by decide
+example : checkHex [0x41] [52, 49] = false := by decide          -- no EOD marker
 
 /-! ## The behaviour before the repairs did not satisfy the property (checked counter-examples) -/
 
